@@ -253,6 +253,8 @@ void recipeExec(RunState& rs) {
     std::unique_ptr<IWorld> twin = makeWorld(tw);
     twin->buildTree();
     ctx.view = &twin->view();
+    checkComplete(ctx, twin->view(), "ref");
+    rs.drain("twin");
     twin->makeAlgo();
     runHistory(rs, *twin, sc.history, false, "twin");
 
@@ -276,6 +278,8 @@ void recipeExec(RunState& rs) {
         world = makeWorld(sc);
         world->buildTree();
         ctx.view = &world->view();
+        checkComplete(ctx, world->view(), "ref");
+        rs.drain("run");
         ctx.kernelWorkers.clear();
         rs.kernelIndexWorkers.clear();
         world->makeAlgo();
